@@ -276,7 +276,8 @@ SWEEP_DOC = ("`group g (sort x | window <frame> (derive {s = sum y}))` for rows 
 
 _ROWS = [(1, 1, 10), (1, 2, 20), (1, 3, 30), (1, 5, 40), (2, 1, 5), (2, 2, 6), (3, 7, 7)]
 _FRAMES = [("rows", -1, 1), ("rows", None, 0), ("rows", 0, None), ("rows", -2, -1), ("rows", 1, 2), ("rows", 0, 0), ("rows", None, None),
-           ("range", -1, 1), ("range", None, 0), ("range", 0, None), ("range", -2, 0),
+           ("rows", None, -1), ("rows", 1, None), ("rows", None, -2), ("rows", 2, None),
+           ("range", -1, 1), ("range", None, 0), ("range", 0, None), ("range", -2, 0), ("range", None, -1), ("range", 1, None),
            ("rolling", 2, None), ("rolling", 3, None), ("rolling", 1, None), ("expanding", None, None), ("none", None, None)]
 
 
